@@ -358,8 +358,17 @@ def r06_4(cx):
     ln = [t.call_term(bi, tt) for bi, tt in t.calls(r'Pattern::low_nybbles$')]
     ok = len(ln) == 1 and is_call(peel_all(expand_vars(t, ln[0][2][1])), r'Teddy::mask_len$')
     ml = cx.body(GEN + 'Teddy::<BUCKETS>::mask_len')
-    mt = strip_convs(ml.local_term(0, expand=True))
-    okm = is_call(mt, r'core::cmp::min$') and {tstr(x) for x in mt[2]} == {'4', 'packed::pattern::Patterns::minimum_len(self.patterns)'} or (is_call(mt, r'core::cmp::min$') and ('c', 4) in mt[2] and any('minimum_len' in tstr(x) for x in mt[2]))
+    from acverif.sym import summarize as _sm, teval as _te, cstr as _cs
+    mrows = [r for r in _sm(cx.facts, ml) if r.end == 'return']
+    okm = bool(mrows)
+    try:
+        for mlv in (0, 1, 3, 4, 5, 9):
+            at0 = lambda t0, mlv=mlv: mlv if _cs(t0) in ('self.patterns.minimum_len', 'packed::pattern::Patterns::minimum_len(self.patterns)') else None
+            from acverif.sym import row_consistent as _rc
+            sel = [r for r in mrows if _rc(r, at0)]
+            okm = okm and len(sel) == 1 and _te(sel[0].ret, at0) == min(4, mlv)
+    except Exception:
+        okm = False
     cx.report('R06.4', t, 'bucket-key', ok and okm, 'patterns sharing the low nybbles of their first min(4, minimum_len) bytes share a bucket' if ok and okm else 'Teddy bucket key is not low_nybbles(mask_len()) with mask_len = min(4, minimum_len)')
     from rules.rabinkarp import r06_4_rk
     r06_4_rk(cx)
